@@ -472,6 +472,18 @@ def r4(rr, repo):
             elif gray is False:
                 rr.violated('the channel order of the box colour is decided without testing whether the frame is BGR', mod, rect[0].node, witness=p.pc_text(), key='box-untested')
         if rect:
+            if len(rect[0].args) >= 3:
+                a1, a2 = rect[0].args[1].replace(' ', ''), rect[0].args[2].replace(' ', '')
+                good = a1 == '(int(frame.width*xform.x),int(frame.height*xform.y))' and a2 == '(int(frame.width*(xform.x+xform.width)),int(frame.height*(xform.y+xform.height)))'
+                swapped = any(t in a1 + a2 for t in ('frame.height*xform.x', 'frame.width*xform.y', 'frame.height*(xform.x', 'frame.width*(xform.y')) or \
+                    ('xform.x+xform.width' not in a2 and 'xform.width' in a2) or ('xform.y+xform.height' not in a2 and 'xform.height' in a2)
+                text = 'the box corners are the fractional rectangle scaled by the frame: x by the width, y by the height, far corner = near corner + (box width, box height)'
+                if good:
+                    rr.holds(text, mod, rect[0].node, key='box-geometry')
+                elif swapped:
+                    rr.violated(text, mod, rect[0].node, witness=f'{a1} .. {a2}'[:200], key='box-geometry')
+                else:
+                    rr.unresolved('the box corners are computed in a way the rule does not know', mod, rect[0].node, witness=f'{a1} .. {a2}'[:200], key='box-geometry')
             rr.ob('the box is drawn on a writable copy-on-need of the frame image (frame.rw.image), filled (-1)', rect[0].args[0] == 'frame.rw.image' and rect[0].args[-1] in ('-1',), mod, rect[0].node, witness=str(rect[0].args[:1]), key='box-rw')
 
 
